@@ -61,7 +61,25 @@ def run(chk):
                 inlen, outlen = r.choice([(-1, 10), (3, -1)])
             lines.append(trans.case_line(fn, mode, inp, outlen, inlen=inlen, presence=r.choice([0, 12, 2])))
             meta.append((fn, mode, inp, inlen, outlen, generous))
-        rs = trans.run_cases(exe, tl, lines, exact=1, env=env, timeout=400)
+        # poison and probe: a long homogeneous input, then shorter inputs that end inside a run of the same character. Whatever
+        # reads behind the end of a pass input (the caller's array is exactly sized; the internal pass buffers keep what the
+        # earlier call left there) sees characters that continue the run
+        for _ in range(3):
+            group = safety.gen_poison_probe(r)
+            for g in group:
+                gm = r.choice([0, 0, 4])
+                lines.append(trans.case_line("T", gm, g, 32 * len(g) + 256, presence=r.choice([0, 12])))
+                meta.append(("T", gm, g, len(g), 32 * len(g) + 256, 32 * len(g) + 256))
+        # every other table list with the library's real scratch sizing (buffers are kept between calls, so what an earlier,
+        # longer call left behind the end of a pass input is still there)
+        exact = 1 if (len(tl) + chk.seed) % 2 else 0
+        chk.tally("tables_exact_scratch_%d" % exact)
+        rs = trans.run_cases(exe, tl, lines, exact=exact, env=env, timeout=400)
+        if exact:
+            # the poison/probe groups once more with the real sizing
+            rs += trans.run_cases(exe, tl, lines[-15:], exact=0, env=env, timeout=400)
+            lines = lines + lines[-15:]
+            meta = meta + meta[-15:]
         for ln, (fn, mode, inp, inlen, outlen, generous), res in zip(lines, meta, rs):
             key = (tl, ln)
             case = dict(table_list=tl, case_line=ln)
